@@ -72,7 +72,7 @@ theorem lock_first_in_generated_handles :
 /-- Import first: the writer waits at the ledger lock through both of Import's transactions, then sees
     the imported state (ids continue after the imported ones) -/
 example :
-    let w := run ([1, 2, 2] ++ List.replicate 13 1 ++ List.replicate 14 2) (exWorld (sendProg exW false))
+    let w := run ([1, 2, 2] ++ List.replicate 15 1 ++ List.replicate 14 2) (exWorld (sendProg exW false))
     w.logCommits = [(1, 1, 1), (1, 2, 1), (1, 3, 2)] ∧ w.resp 1 = some {} ∧ w.resp 2 = some { tx := 3, log := 3 } := by
   decide
 
@@ -87,7 +87,7 @@ example :
 example :
     let bypass : Prog := .stmt .begin fun _ => forgeLog nestedTx 1 0 0 (sendBody exW) fun r =>
       if r.err = "" then .stmt .commit fun _ => .done r else .stmt .rollback fun _ => .done r
-    let w := run (List.replicate 8 1 ++ List.replicate 6 2) (exWorld bypass)
+    let w := run (List.replicate 9 1 ++ List.replicate 6 2) (exWorld bypass)
     w.resp 2 = some { err := "panic" } := by
   decide
 
